@@ -49,6 +49,13 @@ func probeList() []probe {
 			}
 			return "stored bloom is the supplied (empty) one, not the bloom of the block's events"
 		}},
+		// a header bloom of the wrong geometry passes every hash check (the protocol does not commit to the bloom)
+		// and is refused at the LAST step of Store, after the block was written into the batch: the rejection
+		// must be as clean as an early one (database, Reader, and the next Store of the valid block)
+		{name: "late-reject:hdr.EventsBloom=wrong-size", mutate: func(b *Built) bool {
+			b.Block.EventsBloom = bloom.New(core.EventsBloomLength/2, core.EventsBloomHashFuncs)
+			return true
+		}},
 		{name: "uncommitted:hdr.Signatures", mutate: func(b *Built) bool {
 			b.Block.Signatures = [][]*felt.Felt{{fz(1), fz(2)}}
 			return true
@@ -230,6 +237,12 @@ func (r *runner) probes(valid []func() *Built, mk func() *Built, fols []*followe
 				obs[fmt.Sprintf("%s [%s] => rejected (%s)", p.name, be, shortErr(err))]++
 				if d := rawDigest(clone.mem); d != pre {
 					r.c.Violation("reject-not-pure:db:"+be+":"+p.name, fmt.Sprintf("probe rejected (%v) but the database changed", err),
+						replayCase{Kind: "probe", Detail: p.name, NewState: fo.newState}, false)
+				}
+				// ... and the SAME node must still take the valid block (nothing in memory moved with the refused one)
+				if err2, pan2 := store(clone.node, mk()); err2 != nil || pan2 != "" {
+					r.c.Violation("reject-not-pure:valid-block-refused-afterwards:"+be+":"+p.name,
+						fmt.Sprintf("block %d: probe rejected (%v), then the valid block %d is refused by the same node: %v %s", b.Block.Number, err, b.Block.Number, err2, pan2),
 						replayCase{Kind: "probe", Detail: p.name, NewState: fo.newState}, false)
 				}
 			default:
